@@ -261,7 +261,10 @@ func createAllIndexes(
 		}
 		numIndexedOffsets++
 
-		kind := iplddecoders.Kind(block.RawData()[1])
+		kind, err := iplddecoders.GetKind(block.RawData())
+		if err != nil {
+			return nil, 0, fmt.Errorf("failed to get the kind of %s: %w", _cid, err)
+		}
 		switch kind {
 		case iplddecoders.KindBlock:
 			{
@@ -648,7 +651,10 @@ func verifyAllIndexes(
 
 		numIndexedOffsets++
 
-		kind := iplddecoders.Kind(block.RawData()[1])
+		kind, err := iplddecoders.GetKind(block.RawData())
+		if err != nil {
+			return fmt.Errorf("failed to get the kind of %s: %w", _cid, err)
+		}
 		switch kind {
 		case iplddecoders.KindBlock:
 			{
